@@ -1,0 +1,35 @@
+//go:build verif
+
+package s2
+
+// Verification hooks (build tag verif). VerifSched, when set by a test scheduler,
+// is called at the numbered schedule points of the lazy index-update protocol;
+// VerifHit counts how often numbered sites are reached.
+
+import "sync/atomic"
+
+// Schedule points.
+const (
+	VerifPtBeforeStatusLoad  = 1 // maybeApplyUpdates: before the atomic load of status
+	VerifPtBeforeLock        = 2 // maybeApplyUpdates: saw "not fresh", before mu.Lock
+	VerifPtAfterLock         = 3 // maybeApplyUpdates: holding the lock, before applyUpdatesInternal
+	VerifPtBeforeStatusStore = 4 // maybeApplyUpdates: updates applied, before the atomic store of fresh
+	VerifPtBeforeUnlock      = 5 // maybeApplyUpdates: before mu.Unlock
+	VerifPtAfterFresh        = 6 // maybeApplyUpdates: returning (status was fresh or has been made fresh)
+	VerifPtLoopContains      = 7 // Loop.ContainsPoint: before the first unlocked read of the index
+	VerifPtCellMapWrite      = 8 // ShapeIndex: an index cell is stored into cellMap/cells
+)
+
+// VerifSched is called with the schedule point and the index (nil for points without one).
+var VerifSched func(point int, index *ShapeIndex)
+
+// VerifCounters are incremented by verifHit.
+var VerifCounters [64]int64
+
+func verifSched(point int, s *ShapeIndex) {
+	if f := VerifSched; f != nil {
+		f(point, s)
+	}
+}
+
+func verifHit(k int) { atomic.AddInt64(&VerifCounters[k], 1) }
